@@ -22,6 +22,7 @@ for id in sorted(os.listdir('/verif/seeded')):
         needs = ' '.join(m.group(2).split())[:900]
     files = sorted(set(re.findall(r'^\+\+\+ b/(\S+)', open(d + '/patch.diff').read(), re.M)))
     race = id in ('C13-2',)
+    demotags = {'C20-7': 'ark_tiny', 'C20-8': 'ark_debug'}.get(id)
     meta = {
         "id": id,
         "breaks_property": prop,
@@ -33,7 +34,7 @@ for id in sorted(os.listdir('/verif/seeded')):
         "confirmed_by": {
             "procedure": "tools/evalmut.sh in a scratch worktree of /repo (outside /repo and /verif, removed afterwards): the unedited suite was run under the tag sets [], ark_tiny, ark_debug, ark_tiny+ark_debug with the change applied; the demonstration (demo_test.go copied to ecs/zz_demo_test.go) was run with the change and again after reverting it" + (" (with -race)" if race else ""),
             "suite_with_change": "pass under all four tag sets",
-            "demo_with_change": "fail",
+            "demo_with_change": "fail" + (" (demonstration run under the tag set %s, the only builds in which the change shows)" % demotags if demotags else ""),
             "demo_without_change": "pass",
         },
         "checks_run": "tools/matrix.sh: every claimed quick check, against a scratch worktree with only this change applied",
@@ -45,12 +46,20 @@ for id in sorted(os.listdir('/verif/seeded')):
         r3 = json.load(open('/verif/records/round3_first_pass.json'))['first_pass']
         for k3, v3 in r3.items():
             fp[k3] = dict(v3, round=3)
+        late = json.load(open('/verif/records/round3_first_pass.json')).get('late_sample', {})
+        for k3, v3 in late.items():
+            fp[k3] = dict(v3, round=3)
+        r4 = json.load(open('/verif/records/round4_breaking_first_pass.json'))['first_pass']
+        for k4, v4 in r4.items():
+            fp[k4] = dict(v4, round=4)
     except Exception:
         fp = {}
     if id in fp:
         meta["round"] = fp[id].get("round", 2)
         if "relation_to_earlier_samples" in fp[id]:
             meta["relation_to_earlier_samples"] = fp[id]["relation_to_earlier_samples"]
+        if "reported_for_an_unrelated_reason" in fp[id]:
+            meta["first_pass_reported_for_an_unrelated_reason"] = fp[id]["reported_for_an_unrelated_reason"]
         meta["first_pass"] = {"reported_by": fp[id]["reported_by"], "undecided": fp[id]["undecided"],
                               "note": "outcome of all quick checks before any rule was changed in response to the samples of that round; caught_by below is after such changes and is in-sample where it differs"}
     else:
